@@ -1,5 +1,7 @@
 package util
 
+import "github.com/martian-lang/martian/martian/verifsim/vos"
+
 // VerifReset gives the package the state a fresh process would have.
 func VerifReset() {
 	signalHandler = sigHandler{}
@@ -10,6 +12,15 @@ func VerifReset() {
 var _ = verifOrig_GetCgroupMemoryLimit
 var _ = verifOrig_LogSysInfo
 
-func GetCgroupMemoryLimit() (limit, softLimit, usage int64) { return 0, 0, 0 }
+func GetCgroupMemoryLimit() (limit, softLimit, usage int64) {
+	if !vos.Simulated() {
+		return verifOrig_GetCgroupMemoryLimit()
+	}
+	return 0, 0, 0
+}
 
-func LogSysInfo() {}
+func LogSysInfo() {
+	if !vos.Simulated() {
+		verifOrig_LogSysInfo()
+	}
+}
